@@ -45,27 +45,31 @@ fn parse_base(data: &[u8]) -> IResult<&[u8], LongRangeAisBroadcastMessage> {
 
         let (data, longitude) = map(
             |data| signed_i32(data, 18),
-            |lon| {
-                parse_longitude(lon).map(|val| {
+            |lon| match lon {
+                // 181 degrees in 1/10 minute units: not available
+                108_600 => None,
+                _ => parse_longitude(lon).map(|val| {
                     if message_type == 27 {
                         val * 1000.0
                     } else {
                         val
                     }
-                })
+                }),
             },
         )(data)?;
 
         let (data, latitude) = map(
             |data| signed_i32(data, 17),
-            |lat| {
-                parse_latitude(lat).map(|val| {
+            |lat| match lat {
+                // 91 degrees in 1/10 minute units: not available
+                54_600 => None,
+                _ => parse_latitude(lat).map(|val| {
                     if message_type == 27 {
                         val * 1000.0
                     } else {
                         val
                     }
-                })
+                }),
             },
         )(data)?;
 
